@@ -662,6 +662,15 @@ func TestVerif(t *testing.T) {
 			}
 			return
 		}
+		if r.Replay() != nil && probe.Scenario == "status" {
+			var sc statusCase
+			_ = r.ReplayInto(&sc)
+			r.Eval(1)
+			if k, d := runStatusCase(sc); k != "" {
+				r.Violation(k, d, sc)
+			}
+			return
+		}
 		if r.Replay() != nil && strings.HasPrefix(probe.Scenario, "bfs:") {
 			for _, c := range configs(true) {
 				if c.name() == probe.Scenario {
@@ -740,6 +749,7 @@ func TestVerif(t *testing.T) {
 			}
 			r.Extra("bfs_configs", int64(len(cfgs)))
 			runFaultPass(r)
+			runStatusPass(r)
 		}
 		schedrun.Run(r, scenarios())
 	})
